@@ -18,7 +18,7 @@ FRAGMENT = {
                'the vbi_decoder / vbi_raw_decoder / vbi3_raw_decoder objects only), memcpy/memset seen through wrapped __asan_mem*; operations '
                'outside the documented list (vbi_raw_decoder_resize, Teletext fetches, vbi_classify_page on caption pages) are not scheduled '
                'concurrently.  Raw images carry Teletext and VPS lines only (io-sim.c\'s caption signal generator has an undefined '
-               'double->unsigned conversion, outside this property)',
+               'double->unsigned conversion, outside this property); a channel switch request must not get lost (functional clause on top of the differential one, runs without Teletext only: the caption decoder must be reset between the vbi_decode() call during which vbi_channel_switched() was invoked and the second call with a regular timestamp after the one during which it returned; dropped frames put the decoder into its 40-frame countdown so that requests meet a running countdown)',
  'design_ref': 'DESIGN.md section 6 (C20)',
  'rule': 'one evaluation = one simulated run: 20-400 caption frames (in half of the runs together with Teletext pages on the same decoder: rolling headers in two magazines, '
          'headers hit by parity errors, headers of another network, dropped frames - the inputs that make the decoding thread take chswcd_mutex and reset the caption decoder itself) '
